@@ -1,4 +1,4 @@
-import Proofs.Machine.Claims
+import Proofs.Machine.Passthrough
 import Proofs.Ingest
 import Proofs.AnsiGit
 /-!
@@ -46,6 +46,17 @@ def exampleLine : L :=
 
 example : NotOpener exampleLine := by
   constructor <;> decide
+
+/-- **`text_stream_passes_through`** (whole runs, every configuration): if no line of the input opens
+a construct and no line looks like the start of plain `diff -u` output, delta ends normally and
+its output is the input line for line — row `i` is written raw and carries exactly the `raw_line` of
+input line `i` (colours included), nothing added, dropped or reordered. -/
+theorem text_stream_passes_through {cfg : Cfg} (ls : List L) (hl : ∀ l ∈ ls, PlainText l) :
+    ∃ m, run cfg ls = .ok m ∧
+      m.out = (ls.zipIdx 0).map (fun p => ({ kind := .raw, text := p.1.raw, src := p.2 } : Row)) :=
+  run_passthrough ls hl
+
+example : PlainText exampleLine := ⟨by constructor <;> decide, by decide⟩
 
 /-- `interleaving`: pass-through rows keep their place relative to rendered rows — a step only
 appends to the timeline, and at the end of the input the output is exactly the timeline. -/
